@@ -186,12 +186,14 @@ theorem reloadW_eq (rec : Rec) (wuid : Nat) (graceful sequential : Bool) (wt : W
       if !graceful then await rec (.restart_ wuid) .startTail wt
       else if w.status = .stopped then await rec (.start_ wuid) (.reloadTail wuid) wt
       else if w.sendHup then
-        let mut ok := true
+        let mut err : Option Exc := none
         for pid in w.pids do
-          if ok then
+          if err.isNone then
             let r ← kKill pid 1
-            if !r then ok := false
-        if ok then rec (.resume (.reloadTail wuid) .unit wt) else deliver rec wt (.exc .noSuchProcess)
+            err := r.exc
+        match err with
+        | none => rec (.resume (.reloadTail wuid) .unit wt)
+        | some e => deliver rec wt (.exc e)
       else if sequential then reloadSeqStart rec wuid wt
       else
         let mut err : Option String := none
